@@ -176,7 +176,7 @@ def h_parse(I, job):
 
 def shapes(tier):
     if tier == 'quick':
-        NI, NF, EX = (1, 3, 10), (None, 1, 8, 9, 12), ((None, 0), (1, 1), (-1, 1), (1, 2))
+        NI, NF, EX = (1, 3, 10), (None, 1, 8, 9), ((None, 0), (1, 1), (-1, 1))
     else:
         NI, NF, EX = (0, 1, 2, 3, 9, 10, 11), (None, 0, 1, 7, 8, 9, 10, 12, 27, 28), ((None, 0), (1, 1), (-1, 1), (1, 2), (-1, 2), (1, 5), (-1, 5), (1, 6))
     out = []
@@ -185,6 +185,7 @@ def shapes(tier):
             if ni == 0 and not nf: continue
             for (es, ne) in EX:
                 out.append((ni, nf, es, ne, 0))
+    if tier == 'quick': out += [(1, 12, 1, 1, 0), (3, 12, -1, 1, 0), (1, 9, 1, 2, 0), (11, None, None, 0, 0), (1, 28, None, 0, 0), (1, 1, 1, 6, 0)]
     out.append((3, 2, None, 0, 120)); out.append((2, None, 1, 1, 32))
     return out
 
@@ -206,6 +207,180 @@ def gen_parse(maxlen):
             out.append(lit(''.join(rnd.choice('0123456789.-eE9x ') for _ in range(L))))
         return out
     return g
+
+
+
+# ---------------------------------------------------------------- timestamps
+def days_from_civil(y, m, d):
+    """days since 1970-01-01 of the proleptic Gregorian date (y, m, d); Int terms; exact (Hinnant's algorithm, floor division)"""
+    y2 = y - z3.If(m <= 2, 1, 0)
+    era = y2 / 400                                  # z3 Int division is floor for a positive divisor
+    yoe = y2 - era * 400
+    mp = z3.If(m > 2, m - 3, m + 9)
+    doy = (153 * mp + 2) / 5 + d - 1
+    doe = yoe * 365 + yoe / 4 - yoe / 100 + doy
+    return era * 146097 + doe - 719468
+
+
+def epoch_seconds(y, m, d, hh, mi, ss):
+    return days_from_civil(y, m, d) * 86400 + hh * 3600 + mi * 60 + ss
+
+
+def is_leap(y): return z3.And(y % 4 == 0, z3.Or(y % 100 != 0, y % 400 == 0))
+
+
+def month_length(y, m):
+    return z3.If(m == 2, z3.If(is_leap(y), 29, 28), z3.If(z3.Or(m == 4, m == 6, m == 9, m == 11), 30, 31))
+
+
+def install_time_models(I):
+    """libc boundary: gmtime_r yields an arbitrary valid broken-down time (named inputs tm_*), timegm is exact calendar arithmetic"""
+    def sval(v):
+        t = I.term(v, 32)
+        return I.signed_t(t, 32) if isinstance(v, Sym) and v.hi >= (1 << 31) else t
+    def timegm(I_, tm):
+        # libc timegm is a function of the six fields: record them and return an opaque value; the harness compares the
+        # fields (cheap, linear) instead of pushing calendar arithmetic through the digit decomposition
+        raw = [I.load(tm + 4 * k, i32) for k in range(6)]
+        if not any(isinstance(x, Sym) for x in raw):             # concrete run of the interpreter: exact value
+            sg = lambda x: x - (1 << 32) if x >> 31 else x
+            sec, mi, hr, d, mon, yr = [sg(x) for x in raw]
+            return z3.simplify(epoch_seconds(z3.IntVal(yr + 1900), z3.IntVal(mon + 1), z3.IntVal(d), z3.IntVal(hr), z3.IntVal(mi), z3.IntVal(sec))).as_long() & ((1 << 64) - 1)
+        f = [sval(x) for x in raw]
+        r = I.fresh('timegm', 64)
+        I.timegm_calls.append((f, r))
+        return r
+    def gmtime_r(I_, tp, tm):
+        g = I.tm_fields
+        for k, v in enumerate([g['sec'], g['min'], g['hour'], g['mday'], g['mon'] - 1, g['year'] - 1900]):
+            sv_ = z3.simplify(v)
+            I.store(tm + 4 * k, i32, sv_.as_long() if z3.is_int_value(sv_) else Sym(sv_, 32, g['lo'][k], g['hi'][k]))
+        for k in (6, 7, 8): I.store(tm + 4 * k, i32, 0)
+        return tm
+    I.models['timegm'] = timegm; I.models['gmtime_r'] = gmtime_r
+
+
+def check_value(I, v, Y, MO, D, HH, MI, SS, what):
+    """library result v (i64) against the calendar value of the fields"""
+    calls = getattr(I, 'timegm_calls', [])
+    if len(calls) == 1 and isinstance(v, Sym) and v is calls[0][1]:
+        (sec, mi, hr, d, mon, yr), r = calls[0]
+        for got, want, nm in ((sec, SS, 'second'), (mi, MI, 'minute'), (hr, HH, 'hour'), (d, D, 'day'), (mon + 1, MO, 'month'), (yr + 1900, Y, 'year')):
+            I.obligation(got == want, what, 'the %s handed to timegm differs from the %s in the text' % (nm, nm))
+    else:
+        sv = I.signed_t(I.term(v, 64), 64) if isinstance(v, Sym) else z3.IntVal(v - (1 << 64) if v >> 63 else v)
+        I.obligation(sv == epoch_seconds(Y, MO, D, HH, MI, SS), what, 'value differs from exact calendar arithmetic on the fields')
+
+
+def h_ts_roundtrip(I, job):
+    """for every valid broken-down time that gmtime_r can return for a uint32 t: parse_timestamp(to_iso(t)) == timegm(that time)"""
+    y = I.named('year', 32); mo = I.named('mon', 32); d = I.named('mday', 32); hh = I.named('hour', 32); mi = I.named('min', 32); ss = I.named('sec', 32)
+    Y, MO, D, HH, MI, SS = [I.term(v, 32) for v in (y, mo, d, hh, mi, ss)]
+    I.assume(z3.And(Y >= 1970, Y <= 2106, MO >= 1, MO <= 12, D >= 1, D <= month_length(Y, MO), HH >= 0, HH <= 23, MI >= 0, MI <= 59, SS >= 0, SS <= 59))
+    # uint32 timestamps end at 2106-02-07T06:28:15Z
+    I.assume(z3.Or(Y < 2106, z3.And(Y == 2106, z3.Or(MO == 1, z3.And(MO == 2, z3.Or(D < 7, z3.And(D == 7, HH * 3600 + MI * 60 + SS <= 6 * 3600 + 28 * 60 + 15)))))))
+    mc = I.concretize(mo, 'month')                              # fork over the 12 months: keeps every query linear and small
+    MO = z3.IntVal(mc)
+    I.timegm_calls = []
+    I.tm_fields = dict(year=Y, mon=MO, mday=D, hour=HH, min=MI, sec=SS, lo=[0, 0, 0, 1, 0, 70], hi=[59, 59, 23, 31, 11, 206])
+    if getattr(I, 'native', False) or not isinstance(y, Sym):
+        t = z3.simplify(epoch_seconds(Y, MO, D, HH, MI, SS)).as_long()      # concrete runs: the real gmtime_r needs the real t
+    else:
+        t = 0                                                   # symbolic run: the gmtime_r model ignores its argument
+    out = I.new_obj(32, 'iso', 'heap')
+    n = I.concretize(I.call('@verif_iso', [t, out, 32]), 'len'); I.observe('len', n)
+    if n != 20: raise Finding('iso-format', 'ISO text has %d characters, expected 20' % n)
+    val = I.new_obj(8, 'val', 'heap'); cons = I.new_obj(4, 'cons', 'heap')
+    rc = I.concretize(I.call('@verif_parse_timestamp', [out, val, cons]), 'rc'); I.observe('rc', rc)
+    if rc != 0: raise Finding('reject', 'parser rejects the formatter\'s own ISO text')
+    v = I.load(val, i64); I.observe('value', v)
+    check_value(I, v, Y, MO, D, HH, MI, SS, 'roundtrip')
+    I.obligation(I.icmp('eq', 32, I.load(cons, i32), 20), 'consumed', 'ISO text not fully consumed')
+    I.reach('end')
+
+
+TS_TEMPLATE = 'dddd-dd-ddTdd:dd:dd'
+
+
+def h_ts_parse(I, job):
+    """parse_timestamp on template strings with symbolic digits and separators against field-range rules and exact calendar arithmetic"""
+    tail = job['tail']            # what follows the seconds: 'Z', '.dZ', ',ddZ', 'x' (symbolic byte), ...
+    mut = job.get('mut')          # index of one template position whose byte is fully symbolic
+    bs = []
+    for k, c in enumerate(TS_TEMPLATE + tail):
+        if k == mut or c == '?': b = I.named('c%d' % k, 8); I.assume(I.term(b, 8) != 0); bs.append(b)
+        elif c == 'd': bs.append(digit_byte(I, 'd%d' % k))
+        else: bs.append(ord(c))
+    L = len(bs) + 1 + 8
+    buf = I.new_obj(L, 'ts', 'heap')          # the parser advances the pointer by 19 before looking: strings are at least 19 long here
+    for k, b in enumerate(bs): I.store(buf + k, i8, b)
+    for k in range(len(bs), L): I.store(buf + k, i8, 0)
+    # reference scan (forks only on the symbolic non-digit positions)
+    def digit_val(k):
+        b = bs[k]
+        if isinstance(b, int): return (b - 48) if 48 <= b <= 57 else None
+        if is_digit(I, b): return dig(I, b)
+        return None
+    ok = True; vals = {}
+    for k, c in enumerate(TS_TEMPLATE):
+        if c == 'd':
+            v = digit_val(k)
+            if v is None: ok = False; break
+            vals[k] = v
+        else:
+            if not (isinstance(bs[k], int) and bs[k] == ord(c)) and not (isinstance(bs[k], Sym) and is_char(I, bs[k], ord(c))): ok = False; break
+    consumed = None
+    if ok:
+        p = 19; get = lambda q: bs[q] if q < len(bs) else 0
+        def isc(b, *cs): return (b in cs) if isinstance(b, int) else is_char(I, b, *cs)
+        def isd(b): return (48 <= b <= 57) if isinstance(b, int) else is_digit(I, b)
+        if isc(get(p), 90): consumed = p + 1
+        elif isc(get(p), 46, 44) and isd(get(p + 1)):
+            p += 1
+            while isd(get(p)): p += 1
+            if isc(get(p), 90): consumed = p + 1
+            else: ok = False
+        else: ok = False
+    I.timegm_calls = []
+    val = I.new_obj(8, 'val', 'heap'); cons = I.new_obj(4, 'cons', 'heap')
+    rc = I.concretize(I.call('@verif_parse_timestamp', [buf, val, cons]), 'rc'); I.observe('rc', rc)
+    I.reach('end')
+    if not ok:
+        if rc == 0: raise Finding('accepts-invalid', 'timestamp string outside the ISO grammar accepted')
+        I.reach('rejected'); return
+    num = lambda *ks: z3.simplify(z3.IntVal(0) + sum(vals[k] * 10 ** (len(ks) - 1 - j) for j, k in enumerate(ks)))
+    Y, MO, D, HH, MI, SS = num(0, 1, 2, 3), num(5, 6), num(8, 9), num(11, 12), num(14, 15), num(17, 18)
+    for k in range(1, 13):
+        if I.decide(Sym(MO == k, 1), 'month'): MO = z3.IntVal(k); break
+    lib_range = z3.And(Y >= 1900, MO >= 1, MO <= 12, D >= 1, D <= z3.If(MO == 2, 29, month_length(Y, MO)), HH <= 23, MI <= 59, SS <= 60)
+    strict = z3.And(lib_range, D <= month_length(Y, MO))
+    if rc == 0:
+        I.obligation(lib_range, 'accepts-invalid', 'timestamp with a field out of range accepted')
+        v = I.load(val, i64); I.observe('value', v)
+        check_value(I, v, Y, MO, D, HH, MI, SS, 'wrong-value')
+        I.obligation(I.icmp('eq', 32, I.load(cons, i32), consumed), 'consumed', 'consumed length differs from the grammar')
+        I.reach('accepted')
+    else:
+        I.obligation(z3.Not(strict), 'rejects-valid', 'valid ISO timestamp rejected')
+        I.reach('rejected')
+
+
+def gen_ts(rnd):
+    out = []
+    for _ in range(25):
+        y = rnd.choice([1970, 1972, 2000, 2023, 2024, 2038, 2100, 2105, rnd.randint(1970, 2105)]); m = rnd.randint(1, 12)
+        ml = [31, 29 if (y % 4 == 0 and (y % 100 != 0 or y % 400 == 0)) else 28, 31, 30, 31, 30, 31, 31, 30, 31, 30, 31][m - 1]
+        out.append(dict(year=y, mon=m, mday=rnd.choice([1, ml, rnd.randint(1, ml)]), hour=rnd.randint(0, 23), min=rnd.randint(0, 59), sec=rnd.randint(0, 59)))
+    return out
+
+
+def ts_lit(job_index, tail, s):
+    d = {'_job': job_index}
+    for k, ch in enumerate(s):
+        c = (TS_TEMPLATE + tail)[k]
+        if c == 'd': d['d%d' % k] = ord(ch)
+        elif c == '?': d['c%d' % k] = ord(ch)
+    return d
 
 
 def gen_rt(rnd):
@@ -230,4 +405,13 @@ def harnesses(tier):
                 reach=('end', 'accepted', 'rejected'), sanitize=True,
                 tests=[dict(_job=0, neg=0, upper_e=0, **{k: 48 + (j * 7 + 3) % 10 for j, k in enumerate(shape_inputs(shapes(tier)[0]))})],
                 wall=900 if tier == 'quick' else 3000),
+        Harness('timestamp_roundtrip', 'text', h_ts_roundtrip, mode='INT', setup=install_time_models, testgen=gen_ts,
+                desc='for every broken-down time gmtime_r can return for a uint32 timestamp (all fields symbolic, day <= length of that month): parse_timestamp(to_iso_all(t)) == exact calendar value of those fields, 20 characters, fully consumed',
+                bounds='none on the timestamp (1970-01-01 .. 2106-02-07); libc law timegm(gmtime_r(t)) = t assumed'),
+        Harness('timestamp_parse', 'text', h_ts_parse, mode='INT', setup=install_time_models,
+                jobs=[dict(tail=t) for t in ('Z', '.dZ', ',dddZ', '.d?', '?', '.?Z', '')] + [dict(tail='Z', mut=k) for k in ((4, 10, 13, 0, 18) if tier == 'quick' else range(19))],
+                tests=[ts_lit(0, 'Z', '2015-12-31T23:59:59'), ts_lit(0, 'Z', '2016-02-29T00:00:60'), ts_lit(0, 'Z', '2015-13-01T00:00:00'), ts_lit(1, '.dZ', '2000-01-01T00:00:00.5')],
+                reach=('end', 'accepted', 'rejected'),
+                desc='parse_timestamp on ISO-shaped strings: all 14 digits symbolic (every field value incl. second 60, day 29..31, month 13, hour 24), fractional seconds, one arbitrary byte at a template position or after the seconds: accepted iff grammar and field ranges hold, value == exact calendar arithmetic, consumed length',
+                bounds='19-character date-time template followed by the listed tails; one fully symbolic byte per job; February 29 of a non-leap year may be accepted (normalised by timegm) or rejected'),
     ]
